@@ -73,12 +73,50 @@ def correspondence(cases, results, shard=250):
     return per_flag, len(idx), errors
 
 
+def magnitude_cases(tier):
+    mags = []
+    for agg in ("sum", "mean", "var", "var0", "std"):
+        for (dtype, base, spread, rows, batch, w) in (("int", 2000000, 100003, 3500, 500, 2000), ("float", 2000000, 100003, 2400, 600, 1500),
+                                                       ("int", 40000, 997, 900, 200, 500)):
+            for win in ("n", "t"):
+                for shape in (("series", "frame") if agg in ("var", "sum") else ("series",)):
+                    mags.append(dict(kind="mag", win=win, w=w, agg=agg, dtype=dtype, base=base, spread=spread, rows=rows, batch=batch, shape=shape))
+    if tier != "thorough":
+        mags = [m for j, m in enumerate(mags) if m["agg"] in ("var", "std") or j % 2 == 0]
+    return mags
+
+
+def run_mags(out, mags):
+    """magnitude family (oracle only, relative tolerance 1e-6): long windows over large int64 / float64 columns"""
+    import warnings
+    import c07_impl as I
+    n = 0
+    for m in mags:
+        with warnings.catch_warnings():
+            warnings.simplefilter("ignore")
+            try:
+                bad = I.run_magnitude(m)
+            except Exception as e:      # noqa
+                bad = (-1, "raised %r" % (e,), None)
+        n += 1
+        if bad:
+            out.violation("C07/window/large-values/%s/%s" % (m["agg"], m["dtype"]),
+                          "windowed %s over window(%s=%s) of a %s column with values around %d (%d rows in the window) differs from pandas at batch %d: %r vs %r"
+                          % (m["agg"], m["win"], m["w"], m["dtype"], m["base"], m["w"], bad[0], bad[1], bad[2]), {"case": m})
+            break
+    return n
+
+
 def run(prop, tier, seed, replay=None):
     out = common.Outcome(prop, tier, seed)
     proof = common.props_check(prop)
     rng = random.Random(seed * 1000003 + 7)
     if replay:
         cases = [json.load(open(replay))["replay"]["case"]]
+        if cases[0].get("kind") == "mag":
+            n = run_mags(out, cases)
+            return out.finish(proof, {"evaluations": n, "distinct_nontrivial": n, "rule": "replay of one magnitude case", "samples": cases,
+                                      "traces_validated_against_impl": 0, "disagreements_checked": len(out.violations)})
     else:
         cases = G.quick_cases()
         nrand = {"quick": 600, "thorough": 20000}[tier]
@@ -104,6 +142,10 @@ def run(prop, tier, seed, replay=None):
                       % (small["agg"], " by group" if small["group"] else "", "n" if small["kind"] == "n" else "value",
                          small["w"], r["fail"][0] if r["fail"] else "?", r["fail"][1] if r["fail"] else "?", len(lst)),
                       {"case": small, "observed": r.get("got"), "expected": r.get("exp"), "error": r.get("err")})
+
+    nmag = 0
+    if not replay:
+        nmag = run_mags(out, magnitude_cases(tier))
 
     # ---- correspondence with the Coq model (all 8 as-found/repaired combinations)
     t0 = time.time()
@@ -167,6 +209,7 @@ def run(prop, tier, seed, replay=None):
         "cases_with_nan": nb(lambda c: any(r[2] is None for r in c["rows"])),
         "samples": [cases[0], cases[len(cases) // 2], cases[-1]],
         "impl_seconds": round(t_impl, 2), "coq_seconds": round(t_coq, 2),
+        "magnitude_cases(oracle only: int64/float64 columns around 2e6, 1500-2000 rows per window, rtol 1e-6)": nmag,
     }
     return out.finish(proof, cov)
 
